@@ -387,6 +387,10 @@ class ThreadRun:
         x = syms[0]
         name = x.decl().name()
         src = s.sc_sym_src.get(name)
+        if src is None and name.startswith('undef_'):
+            # uninitialised private memory used as an address: transient while the sharing fixpoint is not reached, a finding afterwards
+            s.asserts.append((list(s.constraints), False, 'memory: uninitialised value used as %s at %s' % (what, site), s.cur_pos()))
+            raise PathEnd('undef-pointer')
         if src is None:
             raise Unsupported('symbolic %s does not come from a load: %s at %s' % (what, v, site))
         al = s.sym_allowed.get(name)
@@ -877,6 +881,10 @@ class ThreadRun:
     def call_function(s, f, args, site):
         if len(s.callstack) > 60:
             raise Unsupported('call depth')
+        rb = s.sc.opts.get('rec_bound', 2)
+        if s.callstack.count(f.name) >= rb:
+            s.asserts.append((list(s.constraints), 'BOUND', 'bound: %s re-entered recursively more than %d times' % (f.name[:70], rb), s.cur_pos()))
+            raise PathEnd('bound')
         fr = Frame(f)
         for p, a in zip(f.params, args):
             fr.regs[p.name] = a
